@@ -149,17 +149,19 @@ Proof.
   apply (Forall2_nth_impl _ _ _ _ (b_states _ _ _ _ Hbase)). intros k tk0 tk Hk0 Hk Hst.
   assert (Hi : init_ok tk0).
   { pose proof (b_init _ _ _ _ Hbase) as Ha. rewrite Forall_forall in Ha. apply Ha. eapply nth_error_In; exact Hk0. }
-  destruct Hst as [->|s st rest H1 H2 H3 H4 H5 H6 H7 H8 H9|H1 H2 H3 H4 H5 H6 H7].
+  destruct Hst as [->|a st rest H1 H2 H3 H4 H5 H6 H7 H8 H9 H10 H11|H1 H2 H3 H4 H5 H6 H7].
   - (* never spawned: its message would still be in the event set *)
     exfalso. destruct Hi as (_ & I2 & _ & _ & I5 & _).
     destruct (m_all _ _ _ Hmsgs k tk0 Hk (conj I2 I5)) as [[]|(e & He & _)]. rewrite Hsp in He. contradiction.
   - (* blocked: its timer is live, so a wake-up would still be in the event set *)
     exfalso. pose proof (base_mod _ _ _ _ _ _ Hbase Hk) as Hm.
-    destruct (Hdrv (t_mod tk) Hm) as (l & _ & [Hmid Hwake] & Hperm & [Hentry _] & _).
-    assert (Hbl : blocked_sleep tk = Some s) by (unfold blocked_sleep; rewrite H5; reflexivity).
-    pose proof (Hentry k tk s Hk Hbl eq_refl (fun F => F)) as Hin.
+    destruct (Hdrv (t_mod tk) Hm) as (l & _ & [Hmid Hwake] & Hperm & [Hentry _ _] & _).
+    destruct (aw_wake_held a H8) as [(s & Hs & Es) _].
+    assert (Hh : In s (held tk)) by (unfold held; rewrite H5, H6; exact Hs).
+    pose proof (Hentry k tk s Hk Hh eq_refl (or_introl (fun F => F))) as Hin.
     assert (Hne : ents_at (deadline s) (pending (drv_of w (t_mod tk))) <> []) by (intros E; rewrite E in Hin; contradiction).
-    destruct (Hwake _ _ (ents_at_in _ _ Hne) Hne (base_blocked_fin _ _ _ _ _ _ _ Hbase Hk Hbl)) as (w0 & Hw0 & _).
+    assert (Hfin : deadline s < TMAX) by (rewrite Es; exact (base_blocked_fin _ _ _ _ _ _ _ Hbase Hk H5)).
+    destruct (Hwake _ _ (ents_at_in _ _ Hne) Hne Hfin) as (w0 & Hw0 & _).
     rewrite Hsp in Hperm. cbn in Hperm. apply Permutation_nil in Hperm. rewrite Hperm in Hw0. contradiction.
   - split; assumption.
 Qed.
@@ -172,9 +174,9 @@ Proof.
   apply (Forall2_nth_impl _ _ _ _ (b_states _ _ _ _ Hbase)). intros k tk0 tk Hk0 Hk Hst.
   assert (Hi : init_ok tk0).
   { pose proof (b_init _ _ _ _ Hbase) as Ha. rewrite Forall_forall in Ha. apply Ha. eapply nth_error_In; exact Hk0. }
-  destruct Hst as [->|s st rest H1 H2 H3 H4 H5 H6 H7 H8 H9|H1 H2 H3 H4 H5 H6 H7].
+  destruct Hst as [->|a st rest H1 H2 H3 H4 H5 H6 H7 H8 H9 H10 H11|H1 H2 H3 H4 H5 H6 H7].
   - destruct Hi as (_ & _ & _ & I4 & _). rewrite I4. exists (expected tk0). reflexivity.
-  - eexists. exact H9.
+  - eexists. exact H11.
   - exists []. rewrite app_nil_r. symmetry. exact H7.
 Qed.
 
